@@ -234,6 +234,17 @@ def run(rep):
     for f in (fg, fn_to):
         has = any("names_requiring_disambiguation" in (t.get("fp", "")) for _, t in f.calls())
         rep.ob("R5-same-disambiguation", f.name, has, f.file, f.lo, "names needing disambiguation are not computed with names_requiring_disambiguation")
+    # from_graph feeds the names in node order, to_graph in the lock's sorted order: the duplicate detection must not depend on
+    # the order (a visited-set membership test), otherwise the two directions disagree on which keys carry the source string
+    nrd = F.fn("forc_pkg::lock::names_requiring_disambiguation")
+    nfam = [nrd] + [F.fns[c] for c in F.children.get(nrd.id, [])]
+    set_insert = [t for f in nfam for _, t in f.calls() if re.search(r"(BTreeSet|HashSet)::<T(, S)?(, A)?>::insert$", t.get("fp", ""))]
+    order_dep = [t.get("fp") for f in nfam for _, t in f.calls()
+                 if re.search(r"(Option::<T>::replace|core::mem::replace|core::mem::swap|Iterator::(peekable|zip|skip|scan)|<impl \[T\]>::(windows|dedup\w*)|Vec::<T, A>::dedup\w*|Option::<T>::(take|insert|get_or_insert\w*))$", t.get("fp", ""))]
+    rep.ob("R5-disambiguation-is-order-insensitive", nrd.name, bool(set_insert) and not order_dep, nrd.file, nrd.lo,
+           f"names_requiring_disambiguation must flag a name iff it was seen before (set membership); found set inserts: {len(set_insert)}, "
+           f"order-dependent state: {order_dep}. Lock::from_graph passes names in graph-node order and Lock::to_graph in sorted order, so an "
+           "adjacency-based test writes bare dependency keys that the reader then cannot resolve")
     users = [f for f in F.fns.values() if f.crate == "forc_pkg" and any((t.get("fp", "")).endswith("lock::pkg_name_disambiguated") for _, t in f.calls())]
     rep.ob("R5-same-disambiguation", "pkg_name_disambiguated", {f.name for f in users} >= {"forc_pkg::lock::pkg_dep_line", PL + "::name_disambiguated"}, "forc-pkg/src/lock.rs", 0,
            f"dependency keys and node keys are not both built by pkg_name_disambiguated (users: {[f.name for f in users]})")
